@@ -52,7 +52,7 @@ class Ctx:
 
 def sh(cmd, cwd=None, env=None, timeout=3600, stdin=None):
     p = subprocess.run(cmd, cwd=cwd, env=env, timeout=timeout, input=stdin,
-                       capture_output=True, text=True, shell=isinstance(cmd, str))
+                       capture_output=True, text=True, errors="replace", shell=isinstance(cmd, str))
     return p.returncode, p.stdout, p.stderr
 
 
